@@ -606,6 +606,19 @@ func init() {
 		"(github.com/ipfs/go-cid.Cid).String": stubCidString,
 		"github.com/ipfs/go-cid.Decode":       stubCidDecode,
 		"github.com/sourcenetwork/defradb/internal/core/block.marshalNode": stubMarshalNode,
+		"(*sync/atomic.Uint64).Add":   stubAtomicAdd,
+		"(*sync/atomic.Uint32).Add":   stubAtomicAdd,
+		"(*sync/atomic.Int64).Add":    stubAtomicAdd,
+		"(*sync/atomic.Int32).Add":    stubAtomicAdd,
+		"(*sync/atomic.Uint64).Load":  stubAtomicLoad,
+		"(*sync/atomic.Uint32).Load":  stubAtomicLoad,
+		"(*sync/atomic.Int64).Load":   stubAtomicLoad,
+		"(*sync/atomic.Int32).Load":   stubAtomicLoad,
+		"(*sync/atomic.Bool).Load":    stubAtomicLoad,
+		"(*sync/atomic.Uint64).Store": stubAtomicStore,
+		"(*sync/atomic.Uint32).Store": stubAtomicStore,
+		"(*sync/atomic.Int64).Store":  stubAtomicStore,
+		"(*sync/atomic.Int32).Store":  stubAtomicStore,
 		"sort.Slice":       stubSortSlice,
 		"sort.SliceStable": stubSortSlice,
 		"reflect.DeepEqual": func(e *Engine, fn *ssa.Function, args []Val) Val {
@@ -1267,4 +1280,33 @@ func stubMarshalNode(e *Engine, fn *ssa.Function, args []Val) Val {
 	e.canonSerialize(args[0], &out, 0)
 	a := Agg{F: out}
 	return Tuple{Slice{O: e.newObj(a), Len: len(out), Cap: len(out)}, Iface{}}
+}
+
+// sync/atomic typed values: struct{ _ noCopy; (_ align64;) v T } — single-threaded execution, plain access
+func (e *Engine) atomicField(p Ptr) Ptr {
+	a := e.loadRaw(p).(Agg)
+	return Ptr{O: p.O, P: extPath(p.P, len(a.F)-1)}
+}
+
+func stubAtomicAdd(e *Engine, fn *ssa.Function, args []Val) Val {
+	fp := e.atomicField(args[0].(Ptr))
+	cur := e.load(fp).(Int)
+	r := e.intBinop(token.ADD, cur, args[1].(Int), cur.S).(Int)
+	e.store(fp, r)
+	return r
+}
+
+func stubAtomicLoad(e *Engine, fn *ssa.Function, args []Val) Val {
+	v := e.load(e.atomicField(args[0].(Ptr)))
+	if fn.Signature.Results().At(0).Type().Underlying().(*types.Basic).Kind() == types.Bool {
+		if i, ok := v.(Int); ok {
+			return e.intBinop(token.NEQ, i, Int{W: i.W}, false)
+		}
+	}
+	return v
+}
+
+func stubAtomicStore(e *Engine, fn *ssa.Function, args []Val) Val {
+	e.store(e.atomicField(args[0].(Ptr)), args[1])
+	return nil
 }
